@@ -213,7 +213,8 @@ func (p *gcpPicker) getLeastBusySubConnRef() (*subConnRef, error) {
 	}
 
 	// If the least busy connection still has capacity, use it
-	if minStreamsCnt < int32(p.gb.cfg.GetChannelPool().GetMaxConcurrentStreamsLowWatermark()) {
+	// (compared as int64: a watermark above MaxInt32 must not turn negative)
+	if int64(minStreamsCnt) < int64(p.gb.cfg.GetChannelPool().GetMaxConcurrentStreamsLowWatermark()) {
 		return minScRef, nil
 	}
 
